@@ -6,7 +6,7 @@ from typing import Optional
 
 from ..astq import ancestors, arg, call_name, calls, dotted, find_calls, guard_atoms, guards, kwarg, norm, provenance, walk_local
 from ..cfg import CFG
-from ..core import Ctx
+from ..core import Alias, Ctx
 from ..pred import Unknown, eval_expr, guards_table
 from .common import arm_for, assigns_to, explain, find_in, has_call, has_stmt, sends_of
 
@@ -188,5 +188,10 @@ def run(ctx: Ctx) -> None:
     ev = find_in(arm.body, "self._handle_events") if arm else []
     ok = len(rd) == 1 and len(ev) == 1 and norm(arg(rd[0], 0)) == "event.data" and rd[0].lineno < ev[0].lineno
     ctx.check("C06.R6", f"{M}:H11Protocol.handle", "receive_data(event.data) then _handle_events()", ok, "every read must be fed to h11 before events are processed", arm or hd)
+
+    if not isinstance(ctx, Alias):
+        from . import c16
+
+        c16.run(Alias(ctx, "C06.R7", "both read loops hand every read - including the empty read at EOF - to the protocol and then report Closed (h11 turns a truncated message into 400 + close only when it sees the EOF) (C16.R2 on _read_data)", only={"C16.R2"}, where=["TCPServer._read_data"]))
 
     ctx.assume("not decided: that h11 never yields events of request N+1 before start_next_cycle(); byte boundaries inside reads; h11's own keep-alive / HTTP/1.0 / Connection: close state tracking (trusted library)")
